@@ -16,6 +16,27 @@
 EXTENDS KS, Json, SequencesExt
 
 (* two more cooling plates north of the kitchen sink, with the ridge running through them *)
+(* Degenerate WORLDS.  The statement speaks about every world that builds, so besides degenerate locations of one
+   world the specification enumerates edits that make the world itself degenerate while staying schema-valid:
+   repeated ridge / trench / polygon coordinates (zero-length pieces), a ridge that is a single point, zero-length
+   and zero-thickness segments, a feature whose min depth equals its max depth, a plume of zero width, a zero
+   spreading velocity.  If the constructor refuses such a world there is nothing to check; if it builds, every
+   query must still return finite numbers or throw. *)
+Edits == {"none", "ridge-first-point-twice", "ridge-last-point-twice", "ridge-single-point", "ridge-middle-point-twice",
+          "trench-point-twice", "segment-zero-length", "segment-zero-thickness", "polygon-vertex-twice", "polygon-zero-area",
+          "min-equals-max-depth", "plume-zero-width", "spreading-zero", "slab-ridge-point-twice", "fault-vertical-zero-thickness"}
+Ridge(sph, e, y0, y1) ==
+  CASE e = "ridge-first-point-twice"  -> << <<XY(sph, 500, y0), XY(sph, 500, y0), XY(sph, 500, y1)>> >>
+    [] e = "ridge-last-point-twice"   -> << <<XY(sph, 500, y0), XY(sph, 500, y1), XY(sph, 500, y1)>> >>
+    [] e = "ridge-middle-point-twice" -> << <<XY(sph, 500, y0), XY(sph, 450, y0 + 250), XY(sph, 450, y0 + 250), XY(sph, 500, y1)>> >>
+    [] e = "ridge-single-point"       -> << <<XY(sph, 500, y0 + 250), XY(sph, 500, y0 + 250)>> >>
+    [] OTHER                          -> << <<XY(sph, 500, y0), XY(sph, 500, y1)>> >>
+RidgePlateE(sph, e, name, model, y0, y1) ==
+  Area("oceanic plate", name, RectU(sph, 0, y0, 1000, y1), 0, 120*Km,
+       <<   ("model" :> model) @@ ("min depth" :> 0) @@ ("max depth" :> 120*Km)
+         @@ ("spreading velocity" :> IF e = "spreading-zero" THEN 0 ELSE Dec(3, -2)) @@ ("top temperature" :> 273) @@ ("bottom temperature" :> 1600)
+         @@ ("ridge coordinates" :> Ridge(sph, e, y0, y1)) >>,
+       <<CUniform(<<6>>, "replace")>>, <<>>, <<>>)
 RidgePlate(sph, name, model, y0, y1) ==
   Area("oceanic plate", name, RectU(sph, 0, y0, 1000, y1), 0, 120*Km,
        <<   ("model" :> model) @@ ("min depth" :> 0) @@ ("max depth" :> 120*Km)
@@ -28,21 +49,40 @@ SurfacePlate(sph) ==
        << <<10*Km>>, <<30*Km, <<XY(sph, 1450, 250)>>>> >>,
        << <<200*Km>>, <<100*Km, <<XY(sph, 1200, 0), XY(sph, 1450, 250)>>>> >>,
        <<TUniform(400, "replace")>>, <<CUniform(<<7>>, "replace")>>, <<>>, <<>>)
-KinkSlab(sph) ==
-  Line("subducting plate", "kink", <<XY(sph, 1300, 700), XY(sph, 1300, 1000), XY(sph, 1500, 1200)>>, XY(sph, 2000, 800), 0, 600*Km,
-       <<Segment(200*Km, <<100*Km>>, <<0>>, <<30, 60>>), Segment(200*Km, <<100*Km, 50*Km>>, <<0>>, <<60>>)>>,
+KinkSlabE(sph, e) ==
+  Line("subducting plate", "kink",
+       IF e = "trench-point-twice" THEN <<XY(sph, 1300, 700), XY(sph, 1300, 1000), XY(sph, 1300, 1000), XY(sph, 1500, 1200)>>
+                                   ELSE <<XY(sph, 1300, 700), XY(sph, 1300, 1000), XY(sph, 1500, 1200)>>,
+       XY(sph, 2000, 800), 0, 600*Km,
+       CASE e = "segment-zero-length" -> <<Segment(200*Km, <<100*Km>>, <<0>>, <<30, 60>>), Segment(0, <<100*Km>>, <<0>>, <<60>>), Segment(200*Km, <<100*Km, 50*Km>>, <<0>>, <<60>>)>>
+         [] e = "segment-zero-thickness" -> <<Segment(200*Km, <<100*Km, 0>>, <<0>>, <<30, 60>>), Segment(200*Km, <<0>>, <<0>>, <<60>>)>>
+         [] OTHER -> <<Segment(200*Km, <<100*Km>>, <<0>>, <<30, 60>>), Segment(200*Km, <<100*Km, 50*Km>>, <<0>>, <<60>>)>>,
        <<   ("model" :> "mass conserving") @@ ("density" :> 3300) @@ ("thermal conductivity" :> Dec(33, -1))
          @@ ("adiabatic heating" :> TRUE) @@ ("spreading velocity" :> Dec(5, -2)) @@ ("subducting velocity" :> Dec(5, -2))
-         @@ ("ridge coordinates" :> << <<XY(sph, -1000, -1000), XY(sph, -1000, 3000)>> >>) @@ ("coupling depth" :> 80*Km)
+         @@ ("ridge coordinates" :> IF e = "slab-ridge-point-twice"
+                                        THEN << <<XY(sph, -1000, -1000), XY(sph, -1000, -1000), XY(sph, -1000, 3000)>> >>
+                                        ELSE << <<XY(sph, -1000, -1000), XY(sph, -1000, 3000)>> >>) @@ ("coupling depth" :> 80*Km)
          @@ ("forearc cooling factor" :> 1) @@ ("taper distance" :> 0) @@ ("min distance slab top" :> -200*Km) @@ ("max distance slab top" :> 300*Km) >>,
        <<CUniform(<<8>>, "replace")>>, <<>>, <<>>)
 
-Features13(sph) == KSFeatures(sph) \o <<RidgePlate(sph, "hs", "half space model", 1000, 1500), RidgePlate(sph, "pm", "plate model", 1500, 2000),
-                                        SurfacePlate(sph), KinkSlab(sph)>>
+KinkSlab(sph) == KinkSlabE(sph, "none")
+(* edits of the kitchen-sink features themselves *)
+KSEdit(sph, e) ==
+  LET F == KSFeatures(sph) IN
+  CASE e = "polygon-vertex-twice" -> [F EXCEPT ![1]["coordinates"] = <<XY(sph, 0, 0), XY(sph, 500, 0), XY(sph, 500, 0), XY(sph, 500, 500), XY(sph, 0, 500)>>]
+    [] e = "polygon-zero-area"    -> [F EXCEPT ![2]["coordinates"] = <<XY(sph, 500, 0), XY(sph, 750, 250), XY(sph, 1000, 500)>>]
+    [] e = "min-equals-max-depth" -> [F EXCEPT ![3]["max depth"] = 100*Km, ![1]["min depth"] = 200*Km]
+    [] e = "plume-zero-width"     -> [F EXCEPT ![4]["semi-major axis"] = <<0, 0>>]
+    [] e = "fault-vertical-zero-thickness" -> [F EXCEPT ![6]["segments"] = <<Segment(200*Km, <<0>>, <<0>>, <<90>>)>>]
+    [] OTHER -> F
+Features13E(sph, e) == KSEdit(sph, e) \o <<RidgePlateE(sph, e, "hs", "half space model", 1000, 1500), RidgePlateE(sph, e, "pm", "plate model", 1500, 2000),
+                                            SurfacePlate(sph), KinkSlabE(sph, e)>>
+Features13(sph) == Features13E(sph, "none")
 
 WorldKinds == {"cartesian", "cartesian-surface-at-z0", "spherical"}
-Doc(k) == World(IF k = "spherical" THEN Spherical("begin segment") ELSE Cartesian, Features13(k = "spherical"))
-          @@ ("cross section" :> <<XY(k = "spherical", 0, 250), XY(k = "spherical", 1000, 250)>>)
+DocE(k, e) == World(IF k = "spherical" THEN Spherical("begin segment") ELSE Cartesian, Features13E(k = "spherical", e))
+              @@ ("cross section" :> <<XY(k = "spherical", 0, 250), XY(k = "spherical", 1000, 250)>>)
+Doc(k) == DocE(k, "none")
 
 (* degenerate surface positions <<class, x km, y km>> *)
 Surface ==
@@ -91,10 +131,21 @@ SphereBehaviour(s) ==
    steps |-> <<[op |-> "create", h |-> 1, wb |-> Doc("spherical")]>>
              \o [j \in 1..Len(ls) |-> Query("spherical", s[1], [sph |-> <<s[2], s[3], s[4]>>], s[5], ls[j], 3)]]
 
+(* a degenerate world: built once (the constructor may refuse it), then asked at every degenerate surface position *)
+EditDepthsKm == {0, 50, 120, 350}
+EditBehaviour(k, e) ==
+  LET qs == SetToSeq(Surface \X EditDepthsKm)
+      full == <<PT, PC(0), PC(2), PC(5), PC(6), PC(7), PC(8), PG(0, 2), PTag, PV>>
+  IN [id |-> <<"degenerate-world", k, e>>, labels |-> <<"degenerate-world", k, e>>,
+      steps |-> <<[op |-> "create", h |-> 1, wb |-> DocE(k, e), expect |-> "any"]>>
+                \o [i \in 1..Len(qs) |-> Query(k, qs[i][1][1], Point(k, qs[i][1][2], qs[i][1][3], qs[i][2] * Km), qs[i][2] * Km, full, 3)]]
+
 VARIABLES kind, loc
-Init == (kind \in WorldKinds /\ loc \in Surface) \/ (kind = "spherical" /\ loc \in SphereSpecial)
+Init == \/ (kind \in WorldKinds /\ loc \in Surface)
+        \/ (kind = "spherical" /\ loc \in SphereSpecial)
+        \/ (kind \in WorldKinds /\ loc \in {<<e>> : e \in Edits \ {"none"}})
 Next == UNCHANGED <<kind, loc>>
-Emit == PrintT(<<"B", ToJson(IF Len(loc) = 3 THEN Behaviour(kind, loc) ELSE SphereBehaviour(loc))>>)
+Emit == PrintT(<<"B", ToJson(CASE Len(loc) = 3 -> Behaviour(kind, loc) [] Len(loc) = 1 -> EditBehaviour(kind, loc[1]) [] OTHER -> SphereBehaviour(loc))>>)
 (* every class of degenerate location is generated for every world kind it applies to *)
 Classes == {s[1] : s \in Surface}
 CoverageOK == \A c \in Classes : \E s \in Surface : s[1] = c
